@@ -109,7 +109,7 @@ AnyBool == [t |-> "anybool"]
 EqResult(s, neg) == IF s = "any" THEN AnyBool
                     ELSE IF neg THEN BoolV(s = "f") ELSE BoolV(s = "t")
 
-TypeName(v) == CASE v.t = "int" -> "integertype" [] v.t = "real" -> "realtype"
+TypeName(v) == CASE v.t \in {"int", "anyge"} -> "integertype" [] v.t = "real" -> "realtype"
                  [] v.t = "bool" -> "booleantype" [] v.t = "arr" -> "arraytype"
                  [] v.t = "proc" -> "arraytype" [] v.t = "str" -> "stringtype"
                  [] v.t = "name" -> "nametype" [] v.t = "xname" -> "nametype"
